@@ -2,13 +2,29 @@
    Model: Model/Phase1.v; proofs: Proofs/CB*.v, Proofs/CycleBreaking.v.
    g is a connected component as phase 1 receives it: [consistent] (adjacency lists agree with the edges), without
    self-loops (removed by the preprocessor). [ranked g] = g has a topological ranking = g is acyclic.
-   C14_partial (first sentence): minimality is proved for the set the depth-first pass itself reverses, relative to
-   the graph that pass receives (after the two-node-cycle pre-pass). For an edge reversed by the pre-pass only,
-   un-reversing it re-creates the two-cycle with its antiparallel twin; that composition is not mechanised and is
-   covered by the direct oracle on the implementation. *)
+   The first sentence is proved for the whole phase (pre-pass + depth-first pass, C14_depth_first_minimal): an edge
+   ends up flagged iff exactly one of the two passes reversed it; for an edge of the depth-first pass the DFS tree
+   path closes the cycle; for an edge reversed by the pre-pass only, its antiparallel twin does (the depth-first
+   pass treats parallel edges alike). *)
 From Coq Require Import List ZArith.
-From Autog Require Import Graph Phase1 CycleBreaking.
+From Autog Require Import Graph Phase1 CycleBreaking CBMinimal.
 Import ListNotations.
+
+(* first sentence of the property, in full, for the whole of phase 1: un-reversing any single edge that is drawn
+   reversed (flagged in the result) re-creates a directed cycle among the edges as drawn *)
+Theorem C14_depth_first_minimal : forall g g',
+  consistent g -> no_self_loops g -> all_unflagged g -> phase1 DepthFirst g = Ok g' ->
+  forall e, In e (g_E g') -> e_rev (gedge g' e) = true -> ~ ranked (reverse_edge g' e).
+Proof. exact phase1_dfs_minimal. Qed.
+Print Assumptions C14_depth_first_minimal.
+
+(* and no non-empty set of flagged edges can be un-reversed without re-creating a cycle *)
+Theorem C14_depth_first_minimal_subsets : forall g g',
+  consistent g -> no_self_loops g -> all_unflagged g -> phase1 DepthFirst g = Ok g' ->
+  forall S, NoDup S -> S <> [] -> (forall e, In e S -> In e (g_E g') /\ e_rev (gedge g' e) = true) ->
+  ~ ranked (fold_left reverse_edge S g').
+Proof. exact phase1_dfs_minimal_subset. Qed.
+Print Assumptions C14_depth_first_minimal_subsets.
 
 (* second sentence of the property, in full: with either breaker an acyclic input has no reversed edge *)
 Theorem C14_acyclic_input_is_untouched : forall alg g,
